@@ -793,6 +793,370 @@ def run_client_lockstep(res, prop, tier, seed, wd):
 
 
 # ------------------------------------------------------------------------------------------------
+# the Jura service's own client (jurav1_client::Client, reqwest: the only client the module has), in lockstep with
+# the oracle-free model
+
+IMPORTS_JCLIENT = ("From Alator Require Import Model.Num Model.Quirks Model.Exchange Model.Uist Model.Jura Model.Server "
+                   "Model.Penelope Check.Eqb Check.ExchCheck Check.ServerCheck Check.JClientCheck.")
+
+
+def script_rows(d):
+    """what a loading script leaves behind: (dates in order of first appearance, {date: {symbol: (bid, ask)}})"""
+    dates, rows = [], {}
+    for bid, ask, date, sym in d["quotes"]:
+        if date not in rows:
+            dates.append(date)
+            rows[date] = {}
+        rows[date][sym] = (b2f(bid), b2f(ask))
+    return dates, rows
+
+
+def gen_jclient_order(rng, asset, q):
+    """one Jura order of any kind — the eight constructors and the variants only a deserialised order can have
+    (explicit tif, reduce_only, cloid, non-market triggers, trigger_px different from limit_px) — with its limit /
+    trigger price placed around the quote q = (bid, ask) it is likely to meet: exactly at, one grid step inside and
+    outside the fill / firing condition, and at the IOC slippage boundary (computed with the same doubles). Trigger
+    prices stay on the half grid (they are JSON numbers on the wire; limits and sizes are strings)."""
+    bid, ask = q if q else (100.0, 100.5)
+    sz = rng.choice(["1", "10.0", "25.5", "100", repr(float(rng.randint(1, 500)))])
+    is_buy = rng.random() < 0.5
+    ref = ask if is_buy else bid
+    kind = rng.choice(["ioc", "ioc", "gtc", "gtc", "trigger", "trigger"])
+    step = rng.choice([-1.0, -0.5, 0.0, 0.0, 0.5, 1.0])
+    if kind == "ioc":
+        k = rng.random()
+        if k < 0.4:         # buy fills iff ask <= px * 1.1, sell iff px * 0.9 <= bid
+            px = ref / (1.1 if is_buy else 0.9)
+            if rng.random() < 0.5:
+                px = math.nextafter(px, 0.0 if is_buy else 1e9)
+        elif k < 0.65:
+            px = ref + step
+        elif k < 0.85:
+            px = ref * (0.8 if is_buy else 1.25)      # beyond the slippage: marked, then expires
+        else:
+            px = rng.choice(exch.GRID)
+        ctor, ot = "market", dict(Limit=dict(tif="Ioc"))
+    elif kind == "gtc":
+        px = ref + step
+        ctor, ot = "limit", dict(Limit=dict(tif="Gtc"))
+    else:
+        tpsl = rng.choice(["Tp", "Sl"])
+        trig = ref + step
+        is_market = rng.random() < 0.6
+        px = trig if rng.random() < 0.5 else ref + rng.choice([-1.0, 0.0, 1.0, 20.0, -20.0])
+        ctor = ("stop" if tpsl == "Sl" else "takeprofit") if (is_market and px == trig) else None
+        ot = dict(Trigger=dict(trigger_px=f2b(trig), is_market=is_market, tpsl=tpsl))
+    if ctor and rng.random() < 0.5:
+        return dict(ctor="%s_%s" % (ctor, "buy" if is_buy else "sell"), asset=asset, sz=sz, limit_px=exch.fmt_px(px))
+    return dict(asset=asset, is_buy=is_buy, limit_px=exch.fmt_px(px), sz=sz, reduce_only=rng.random() < 0.2,
+                cloid=rng.choice([None, None, "c1", "xyz"]), order_type=ot)
+
+
+def gen_jclient_scenario(rng, n_ops=None, big_batch=False):
+    """one Jura server (AppState::single on dataset A, or AppState::create over 1-3 datasets) and a history of 10-60
+    requests through every method of the JuraClient trait on 1-3 backtests: inits (unknown datasets too), inserts of
+    every order kind placed around the quotes of the date they will meet, deletes of valid / stale / unknown ids and
+    of a valid id under the wrong asset, ticks (run past the end of the dataset), fetch_quotes, info, and requests
+    naming backtests that do not exist"""
+    single = rng.random() < 0.5
+    names = ["A"] if single else ["A", "B", "C"][:rng.choice([1, 2, 3])]
+    dss = [gen_dataset(rng, nm, "jura", n_dates=rng.choice([1, 2, 3, 4, 5, 8, 12]), weird=rng.random() < 0.15) for nm in names]
+    loaded = {d["name"]: script_rows(d) for d in dss}
+    ids, last = ([0], 1) if single else ([], 0)
+    ds_of = {0: "A"} if single else {}
+    pos = {i: 0 for i in ids}
+    sent = {i: [] for i in ids}          # assets of the orders sent to a backtest, in order (ids are given in about this order)
+    deleted = []
+    ops = []
+    max_bt = rng.choice([1, 2, 3])
+
+    def do_init(nm):
+        nonlocal last
+        ops.append(dict(op="init", name=nm))
+        if nm in loaded:
+            last += 1
+            ids.append(last)
+            ds_of[last], pos[last], sent[last] = nm, 0, []
+
+    def do_insert(bid, o=None):
+        if o is None:
+            asset = rng.choice(exch.ASSETS + ([3] if rng.random() < 0.08 else []))
+            q = None
+            if bid in ds_of:
+                dates, rows = loaded[ds_of[bid]]
+                # resting orders meet the row of the tick after the one that admits them; past the end it is the last row
+                at = min(pos[bid] + 1, len(dates) - 1) if rng.random() < 0.7 else rng.randrange(len(dates))
+                q = rows[dates[at]].get(str(asset))
+            o = gen_jclient_order(rng, asset, q)
+        ops.append(dict(op="insert", id=bid, order=o))
+        if bid in sent:
+            sent[bid].append(o["asset"])
+
+    def do_tick(bid):
+        ops.append(dict(op="tick", id=bid))
+        if bid in pos:
+            pos[bid] += 1
+
+    if not single:
+        do_init(rng.choice(names))
+    n_ops = n_ops or rng.randint(10, 60)
+    batch_at = rng.randrange(n_ops) if big_batch else -1
+    while len(ops) < n_ops:
+        r = rng.random()
+        bid = rng.choice(ids) if rng.random() < 0.92 else rng.choice([last + 1, 77, 0 if not single else 78])
+        if len(ops) >= batch_at >= 0:
+            batch_at = -1
+            for o in exch.jura_batch(rng, rng.choice([21, 22, 33]), rng.choice(exch.ARRANGEMENTS)):
+                do_insert(bid, o)
+        elif r < 0.38:
+            do_tick(bid)
+        elif r < 0.45:
+            ops.append(dict(op="fetch", id=bid))
+        elif r < 0.74:
+            do_insert(bid)
+            if rng.random() < 0.35:      # admitted by the first tick, meets its quote on the second
+                do_tick(bid)
+                do_tick(bid)
+        elif r < 0.85:
+            n = len(sent.get(bid, []))
+            k = rng.random()
+            if k < 0.55 and n:
+                oid = rng.randrange(n)
+                asset = sent[bid][oid] if rng.random() < 0.7 else rng.choice(exch.ASSETS)   # right / wrong asset
+            elif k < 0.7 and deleted:
+                bid, asset, oid = rng.choice(deleted)                                       # stale: deleted before
+            elif k < 0.85:
+                oid, asset = n + rng.choice([0, 1, 2]), rng.choice(exch.ASSETS)            # not handed out yet
+            else:
+                oid, asset = rng.choice([n + 9, 2 ** 63]), rng.choice(exch.ASSETS + [5])
+            ops.append(dict(op="delete", id=bid, asset=asset, order_id=oid))
+            deleted.append((bid, asset, oid))
+        elif r < 0.93:
+            known = len(ids) < max_bt and rng.random() < 0.75
+            do_init(rng.choice(names) if known else "ZZ")
+        else:
+            ops.append(dict(op="info", id=bid))
+    return dict(kind="jhttpclient", start="single:A" if single else "create", datasets=dss, ops=ops)
+
+
+def g_jclient_res(op, r):
+    """observed response of the Jura client as an sres term (admitted orders carry no id on the wire: 0)"""
+    o = op["op"]
+    if isinstance(r, dict) and "panic" in r:
+        return "RPanic"
+    some = "some" in r
+    val = r.get("some")
+    if o == "tick":
+        if not some:
+            return gc("RTick", "None")
+        out = gt(gl([exch.g_fill(f) for f in val["fills"]]),
+                 gl([gt(gn(0), exch.g_jorder(x)) for x in val["admitted"]]),
+                 gl([gn(i) for i in (val["triggered"] or [])]))
+        return gc("RTick", "(Some %s)" % gt(gb(val["has_next"]), out))
+    if o == "fetch":
+        return gc("RFetch", go(val if some else None, g_row))
+    if o == "init":
+        return gc("RId", go(val if some else None, gn))
+    if o in ("insert", "delete"):
+        return gc("RUnit", "(Some tt)" if some else "None")
+    if o == "info":
+        return gc("RInfo", go(val["dataset"] if some else None, gs))
+    raise ValueError(o)
+
+
+def g_jclient_op(op, r):
+    o = op["op"]
+    if o == "tick":
+        return gc("STick", gn(op["id"]), "[]")
+    if o == "fetch":
+        return gc("SFetch", gn(op["id"]))
+    if o == "init":
+        return gc("SInit", gs(op["name"]))
+    if o == "insert":
+        # prices and sizes are strings on the wire: the parsed form is what the code's own parse::<f64>() made of
+        # the order that was sent
+        return gc("SInsert", exch.g_jorder(r["inserted"]), gn(op["id"]))
+    if o == "delete":
+        return gc("SDelete", gt(gn(op["asset"]), gn(op["order_id"])), gn(op["id"]))
+    if o == "info":
+        return gc("SInfo", gn(op["id"]))
+    raise ValueError(o)
+
+
+def g_jcase(sc, tr):
+    single = sc["start"].startswith("single:")
+    dss = [d for d in sc["datasets"] if not single or d["name"] == sc["start"][7:]]
+    data = gl([gt(gs(d["name"]), gl([gt(gf(q[0]), gf(q[1]), gz(q[2]), gs(q[3])) for q in d["quotes"]])) for d in dss])
+    hist = []
+    for op, r in zip(sc["ops"], tr["results"]):
+        if isinstance(r, dict) and "panic" in r:
+            break      # an order constructor panicked in the client process before any request: outside the model
+        hist.append(gt(g_jclient_op(op, r), g_jclient_res(op, r)))
+    return gc("mkJCase", gn(int(tr.get("order_size", 1))), gb(single), data, gl(hist))
+
+
+def jclient_backtests(sc, tr):
+    """{backtest id: dataset name} of the backtests the history knows to exist (the single one, and what init returned)"""
+    bts = {0: sc["start"][7:]} if sc["start"].startswith("single:") else {}
+    for op, r in zip(sc["ops"], tr["results"]):
+        if op["op"] == "init" and "some" in r:
+            bts[r["some"]] = op["name"]
+    return bts
+
+
+def strip_texts(x):
+    return {k: v for k, v in x.items() if k != "inserted"} if isinstance(x, dict) else x
+
+
+def oracle_jclient(prop, sc, tr, run_one):
+    """direct readings on a Jura client history. C08: the responses for one backtest id do not depend on what is
+    interleaved on other ids (the same history with the other ids' requests removed gives the same responses), unknown
+    ids and datasets are rejected and init never hands out an id twice. C20: the same history in-process (AppState
+    called directly) answers the same. C07 / C01: after k ticks `tick` reports has_next iff k < N and fetch_quotes
+    shows the row of date index min(k, N-1)."""
+    ops, res = sc["ops"], tr["results"]
+    if any(isinstance(r, dict) and "panic" in r for r in res):
+        return None
+    created = jclient_backtests(sc, tr)
+    known_ds = {d["name"] for d in sc["datasets"] if not sc["start"].startswith("single:") or d["name"] == sc["start"][7:]}
+    if prop == "C08":
+        seen = set(created) - {r["some"] for op, r in zip(ops, res) if op["op"] == "init" and "some" in r}
+        for k, (op, r) in enumerate(zip(ops, res)):
+            if op["op"] == "init":
+                if ("some" in r) != (op["name"] in known_ds):
+                    return dict(step=k, what="init on %s dataset answered %s" % ("a known" if op["name"] in known_ds else "an unknown", r), op=op)
+                if "some" in r:
+                    if r["some"] in seen:
+                        return dict(step=k, what="init returned id %d which already names a backtest" % r["some"], op=op)
+                    seen.add(r["some"])
+            elif op["id"] not in seen and "some" in r:
+                return dict(step=k, what="a request naming the unknown backtest %d was answered instead of rejected" % op["id"], op=op)
+        for bid in sorted(created):
+            proj = dict(sc, ops=[op for op in ops if op["op"] == "init" or op.get("id") == bid])
+            tr2 = run_one(proj)
+            if "results" not in tr2:
+                return None
+            a = client_responses_for(sc, tr, bid)
+            b = client_responses_for(proj, tr2, bid)
+            for j, ((k, _, x), (_, _, y)) in enumerate(zip(a, b)):
+                if json.dumps(strip_texts(x), sort_keys=True) != json.dumps(strip_texts(y), sort_keys=True):
+                    return dict(step=k, what="the response to request %d on backtest %d differs from the response to the same "
+                                "request when the requests on other backtests are left out" % (j, bid),
+                                with_others=x, alone=y, op=ops[k])
+        return None
+    if prop == "C20":
+        d = dict(sc, kind="jura", mode="direct")
+        td = run_one(d)
+        if "results" not in td:
+            return None
+        for k, (op, rh, rd) in enumerate(zip(ops, res, td["results"])):
+            if "panic" in rd:
+                break
+            if ("some" in rd) != ("some" in rh):
+                return dict(step=k, op=op, what="the client got %s where the in-process call answered %s" % (
+                    "a result" if "some" in rh else "an error", "a result" if "some" in rd else "None"))
+            if "some" in rd:
+                a, b = copy.deepcopy(rd["some"]), copy.deepcopy(rh["some"])
+                if op["op"] == "info":
+                    a, b = a["dataset"], b["dataset"]
+                r = json_close(a, b)
+                if r:
+                    return dict(step=k, op=op, what="what the client decoded differs from the in-process result: " + r)
+        return None
+    # clock readings
+    ticks = {}
+    for k, (op, r) in enumerate(zip(ops, res)):
+        bid = op.get("id")
+        if bid not in created or "some" not in r:
+            continue
+        dates = script_dates(sc, created[bid])
+        if dates != sorted(dates):
+            continue
+        N = len(dates)
+        if op["op"] == "tick":
+            ticks[bid] = ticks.get(bid, 0) + 1
+            if r["some"]["has_next"] != (ticks[bid] < N):
+                return dict(step=k, what="tick %d of a %d-date dataset reported has_next=%s" % (ticks[bid], N, r["some"]["has_next"]), op=op)
+        if op["op"] == "fetch":
+            want = dates[min(ticks.get(bid, 0), N - 1)]      # add_quote files every quote under its own date
+            got = sorted({q["date"] for q in r["some"]})
+            if got != [want]:
+                return dict(step=k, what="after %d ticks fetch_quotes on backtest %d should show the row of date %d" % (
+                    ticks.get(bid, 0), bid, want), got_dates=got, op=op)
+    return None
+
+
+def run_jclient_lockstep(res, prop, tier, seed, wd, replay=None):
+    """-> coverage dict; reports a violation on res when the lockstep comparison fails"""
+    rng = random.Random(seed + 29)
+    n = tier_size(tier, 8, 120)
+    if replay:
+        scs = [json.load(open(replay))["scenario"]]
+    else:
+        scs = [gen_jclient_scenario(rng, big_batch=(i % 4 == 3)) for i in range(n)]
+    trs = run_harness_sharded("server", scs, wd)
+    skipped = [t.get("skipped") for t in trs if isinstance(t, dict) and "skipped" in t]
+    rule = ("jurav1_client::Client (reqwest) against an actix HttpServer on 127.0.0.1 serving the jurav1_server handlers over "
+            "AppState::single / AppState::create on Penelopes loaded from the scenario's scripts; requests through the "
+            "JuraClient trait on 1-3 backtests (init), all order kinds placed around the quotes, compared response by "
+            "response (has_next, fills, admitted orders, triggered ids; rows; ids; 400s) with the model running the "
+            "WHOLE history from its own initial state (no re-synchronisation, no sort oracle: Model/ExchangeStd.v at "
+            "size_of::<jura_v1::Order>())")
+    if skipped or any("results" not in t for t in trs):
+        return dict(jclient_lockstep_http="loopback HTTP unavailable in this environment (%s): the Jura reqwest client was not "
+                    "exercised and nothing is concluded from it" % (skipped[0] if skipped else str(trs[0])[:120]),
+                    jclient_lockstep_histories=0, jclient_lockstep_requests=0, jclient_lockstep_mismatching=0,
+                    jclient_lockstep_rule=rule)
+    terms = [g_jcase(sc, tr) for sc, tr in zip(scs, trs)]
+    failing = eval_cases(wd, "jclient", IMPORTS_JCLIENT, terms, "jcase_ok", per_shard_min=3)
+    mix, outcomes = {}, {}
+    for sc, tr in zip(scs, trs):
+        bts = jclient_backtests(sc, tr)
+        for op, r in zip(sc["ops"], tr["results"]):
+            mix[op["op"]] = mix.get(op["op"], 0) + 1
+            if "some" not in r:
+                key = "%s:rejected" % op["op"]
+            elif op["op"] == "tick":
+                v = r["some"]
+                key = "tick:%s%s%s%s" % ("more" if v["has_next"] else "end", "+fills" if v["fills"] else "",
+                                          "+admitted" if v["admitted"] else "", "+triggered" if v["triggered"] else "")
+            elif op["op"] == "insert":
+                ot = r["inserted"]["order_type"]
+                key = "insert:%s" % (ot["Limit"]["tif"] if "Limit" in ot else
+                                     "%s-%s" % (ot["Trigger"]["tpsl"], "market" if ot["Trigger"]["is_market"] else "limit"))
+            else:
+                key = "%s:ok" % op["op"]
+            outcomes[key] = outcomes.get(key, 0) + 1
+    cov = dict(jclient_lockstep_http="%d histories through jurav1_client::Client (reqwest) against an actix HttpServer on 127.0.0.1" % len(scs),
+               jclient_lockstep_histories=len(scs), jclient_lockstep_requests=sum(len(t["results"]) for t in trs),
+               jclient_lockstep_mismatching=len(failing), jclient_lockstep_op_mix=mix, jclient_lockstep_outcomes=outcomes,
+               jclient_lockstep_fills=sum(len(r["some"]["fills"]) for t in trs for r in t["results"]
+                                          if isinstance(r.get("some"), dict) and "fills" in r["some"]),
+               jclient_lockstep_rule=rule)
+    if failing:
+        def run_one(sc):
+            return run_harness("server", [sc], wd, tag="jw")[0]
+        found = None
+        for i in failing:
+            f = oracle_jclient(prop, scs[i], trs[i], run_one)
+            if f:
+                found = (i, f)
+                break
+        i0 = failing[0]
+        detail = eval_term(wd, "jclient_detail", IMPORTS_JCLIENT, "jcase_mismatches %s" % terms[i0])
+        broken = dict(theorem="Props/%s.v" % prop, lockstep_mismatches_first_history=detail[-600:],
+                      histories_mismatching=len(failing))
+        if found:
+            i, f = found
+            res.violation(dict(kind="property-fails-on-implementation", component="jura-client", found_in="jura client history %d" % i,
+                               failure=f, scenario=scs[i], correspondence=broken), "violation")
+        else:
+            res.violation(dict(kind="correspondence-or-refuted-theorem", component="jura-client", no_longer_checks=broken,
+                               scenario=scs[i0]), "unproved", no_input=True)
+    return cov
+
+
+# ------------------------------------------------------------------------------------------------
 # checks
 
 SPROJ = {
@@ -905,6 +1269,9 @@ def run_property(res, prop, tier, seed, replay, prop_files, extra=None):
     if prop in ("C07", "C08", "C01") and not replay:
         cov.update(run_client_lockstep(res, prop, tier, seed, wd))
         cov["evaluations"] += cov["client_lockstep_requests"]
+    if prop in ("C07", "C08", "C01") and (not replay or json.load(open(replay)).get("component") == "jura-client"):
+        cov.update(run_jclient_lockstep(res, prop, tier, seed, wd, replay=replay))
+        cov["evaluations"] += cov["jclient_lockstep_requests"]
     if extra:
         extra(cov)
     res.coverage.update(cov)
